@@ -386,6 +386,7 @@ func r095(c *Ctx, r *R) {
 	}
 	sendV := send[0].(ssa.Value)
 	nOK, nErr := 0, 0
+	var kOK, kErr int64
 	for _, ci := range findCalls(f, false, "(*time.Timer).Reset") {
 		arg := callArgs(ci.Common())[0]
 		bo, isB := arg.(*ssa.BinOp)
@@ -407,10 +408,49 @@ func r095(c *Ctx, r *R) {
 		if onErr {
 			which = "error"
 			nErr++
+			kErr = k
 		} else {
 			nOK++
+			kOK = k
 		}
 		r.Check(k > 1, "informer:rearm-"+which, ci.Pos(), fmt.Sprintf("after %s the metric is re-published at TTL/%d", which, k), fmt.Sprintf("after %s the informer metric is re-published at TTL/%d: not before the previous one expires", which, k))
+	}
+	// one effective re-arm per round: after a Reset no other Reset is
+	// reachable before the loop waits on the timer again (a later Reset
+	// overrides the earlier one: an error path falling through to the
+	// success re-arm retries too late)
+	var waitBlock *ssa.BasicBlock
+	instrs(f, func(i ssa.Instruction) {
+		if s, ok := i.(*ssa.Select); ok {
+			waitBlock = s.Block()
+		}
+	})
+	if waitBlock == nil {
+		r.Und("informer:wait", f.Pos(), "the select waiting on the timer was not found")
+		return
+	}
+	resets := findCalls(f, false, "(*time.Timer).Reset")
+	for _, r1 := range resets {
+		over := ""
+		for _, r2 := range resets {
+			if r1 == r2 {
+				continue
+			}
+			if r1.Block() == r2.Block() {
+				if dominatesInstr(r1, r2) {
+					over = c.P.Pos(r2.Pos())
+				}
+			} else if blockReachesAvoiding(r1.Block(), r2.Block(), waitBlock) {
+				over = c.P.Pos(r2.Pos())
+			}
+		}
+		r.Check(over == "", "informer:single-rearm", r1.Pos(), "this re-arm is the effective one on its path (no later Reset before the next wait)", "this re-arm is overridden by the Reset at "+over+" before the loop waits again: the interval chosen for this path (e.g. the shorter retry after an error) never takes effect")
+	}
+	if kOK > 0 && kErr > 0 {
+		// the success re-arm fires TTL/kOK after a publish; if that attempt
+		// fails, the retry comes TTL/kErr later: before expiry iff
+		// 1/kOK + 1/kErr < 1
+		r.Check(kOK*kErr > kOK+kErr, "informer:retry-before-expiry", f.Pos(), fmt.Sprintf("TTL/%d + TTL/%d < TTL: one failed attempt is retried before the previous metric expires", kOK, kErr), fmt.Sprintf("TTL/%d + TTL/%d >= TTL: after one failed publish the retry arrives only when the previous metric has expired", kOK, kErr))
 	}
 	r.Check(nOK >= 1 && nErr >= 1, "informer:both-paths", f.Pos(), "the timer is re-armed on success and on error", fmt.Sprintf("the informer timer is not re-armed on both paths (success: %d, error: %d): publishing stops", nOK, nErr))
 }
